@@ -15,18 +15,32 @@ import (
 )
 
 func run(id uint64) bool {
-	mode := "chaos"
-	if id%3 == 0 {
-		mode = "graceful"
-	}
+	// of 6 consecutive ids: 1 graceful, 3 chaos, 1 keyupdate (TLS 1.3 only), 1 deadline
+	mode := []string{"graceful", "chaos", "chaos", "keyupdate", "deadline", "chaos"}[id%6]
 	ver := 12 + int(id>>1)%2
+	if mode == "keyupdate" {
+		ver = 13
+	}
 	fmt.Fprintf(os.Stderr, "SCENARIO %d %s %d\n", id, mode, ver)
-	v, st := rig.RunScenario(id, mode, ver, 45*time.Second)
+	var v string
+	var st rig.Stats
+	extra := ""
+	t0 := time.Now()
+	switch mode {
+	case "keyupdate":
+		v, st = rig.RunKeyUpdateScenario(id, 45*time.Second)
+		extra = fmt.Sprintf(" keyupdates=%d requested=%d slowlink=%d", st.KeyUpdates, st.KeyUpdateReqs, st.Delayed)
+	case "deadline":
+		v, st = rig.RunDeadlineScenario(id, ver, 45*time.Second)
+		extra = fmt.Sprintf(" timeouts=%d gates=%v gatetimeouts=%v spans=%d alertgates=%d keyupdates=%d", st.Timeouts, st.Gates, st.GateTimeouts, st.Spans, st.AlertGates, st.KeyUpdates)
+	default:
+		v, st = rig.RunScenario(id, mode, ver, 45*time.Second)
+	}
 	if v != "" {
 		fmt.Printf("VIOL %d %s tls1.%d: %s\n", id, mode, ver-10, v)
 		return false
 	}
-	fmt.Printf("OK %d %s %d workers=%d writes=%d bytes=%d\n", id, mode, ver, st.Workers, st.Writes, st.Bytes)
+	fmt.Printf("OK %d %s %d workers=%d writes=%d bytes=%d%s ms=%d\n", id, mode, ver, st.Workers, st.Writes, st.Bytes, extra, time.Since(t0).Milliseconds())
 	return true
 }
 
